@@ -1,8 +1,10 @@
 #!/bin/bash
 # runs every registered check of one tier, sequentially; prints a one-line summary per check
-tier=${1:-quick}
+# usage: run_all.sh [quick|thorough] [ids...]
+tier=${1:-quick}; shift
 cd "$(dirname "$0")/.."
-for id in $(python3 -c "import json;print(' '.join(c['property_id'] for c in json.load(open('MANIFEST.json'))['checks']))"); do
+ids="$*"; [ -z "$ids" ] && ids=$(python3 -c "import json;print(' '.join(c['property_id'] for c in json.load(open('MANIFEST.json'))['checks']))")
+for id in $ids; do
   s=$(date +%s)
   out=$(./vcheck $id --tier $tier 2>&1); rc=$?
   echo "$id rc=$rc $(( $(date +%s) - s ))s :: $(echo "$out" | grep -E "^$id $tier:" | tail -1)"
